@@ -19,7 +19,7 @@ theorem roundUp_eq (tn : Int) : roundUp tn = tn / 1000000000 + 1 := by
 /-- Everything `next` guarantees on a fixed-offset zone, in one statement. -/
 theorem next_post_fixed (s : Sched) (off : Int) (h60 : off % 60 = 0) (tn : Int) :
     NextPost s off (roundUp tn) (year (fixedZone off) (roundUp tn) + 5) (next s (fixedZone off) tn) := by
-  simp only [next]
+  simp only [next, Generated.C04Next.yearLimitAdd]
   refine nextFrom_rule h60 (roundUp tn) _ (roundUp tn + 192931200)
     (fun u hu => year_limit_bound (roundUp tn) u hu) outerFuel (roundUp tn) false
     ⟨fun u h1 h2 => by omega, fun _ => rfl, fun h => Bool.noConfusion h⟩ ?_ ?_
@@ -80,6 +80,38 @@ theorem every_next_spec (d tn : Int) :
     (d < 1000000000 → everyDelay d = 1000000000) := by
   simp only [everyNext, everyDelay]
   split <;> omega
+
+/-- T1: the statements of `Next`, `dayStart`, `dayMatches`, `Every` that the model was written from,
+as re-extracted from the current source by `factgen_c04next` (loop order, first-advance resets,
+advances, `goto WRAP` tests, star bit, year limit).  A change of the source changes the generated
+file and this theorem (or the proofs above, for the two constants) no longer checks. -/
+theorem source_shape_as_modelled :
+    Generated.C04Next.starBit = 63 ∧ Generated.C04Next.yearLimitAdd = 5 ∧
+    Generated.C04Next.loopOrder = ["month", "day", "hour", "minute", "second"] ∧
+    Generated.C04Next.loopReset =
+      ["t=dayStart(time.Date(t.Year(),t.Month(),1,0,0,0,0,loc))",
+       "t=time.Date(t.Year(),t.Month(),t.Day(),0,0,0,0,loc)",
+       "t=time.Date(t.Year(),t.Month(),t.Day(),t.Hour(),0,0,0,loc)",
+       "t=t.Truncate(time.Minute)",
+       "t=t.Truncate(time.Second)"] ∧
+    Generated.C04Next.loopStep =
+      ["t=dayStart(t.AddDate(0,1,0))",
+       "next:=dayStart(t.AddDate(0,0,1));if!next.After(t){next=dayStart(t.AddDate(0,0,2))};t=next",
+       "day:=t.Day();t=t.Add(1*time.Hour)",
+       "t=t.Add(1*time.Minute)",
+       "t=t.Add(1*time.Second)"] ∧
+    Generated.C04Next.loopWrap =
+      ["t.Month()==time.January", "t.Day()==1", "t.Hour()==0||t.Day()!=day", "t.Minute()==0",
+       "t.Second()==0"] ∧
+    Generated.C04Next.dayStartBody =
+      "{switchh:=t.Hour();{caseh>12:returnt.Add(time.Duration(24-h)*time.Hour)caseh>0:ifu:=t.Add(time.Duration(-h)*time.Hour);u.Day()==t.Day(){returnu}default:ifu:=t.Add(-1*time.Hour);u.Hour()==0&&u.Day()==t.Day(){returnu}}returnt}" ∧
+    Generated.C04Next.dayMatchesBody =
+      "{var(domMatchbool=1<<uint(t.Day())&s.Dom>0dowMatchbool=1<<uint(t.Weekday())&s.Dow>0)ifs.Dom&starBit>0||s.Dow&starBit>0{returndomMatch&&dowMatch}returndomMatch||dowMatch}" ∧
+    Generated.C04Next.everyBody =
+      "{ifduration<time.Second{duration=time.Second}returnConstantDelaySchedule{Delay:duration-time.Duration(duration.Nanoseconds())%time.Second,}}" ∧
+    Generated.C04Next.everyNextBody =
+      "{returnt.Add(schedule.Delay-time.Duration(t.Nanosecond())*time.Nanosecond)}" :=
+  ⟨rfl, rfl, rfl, rfl, rfl, rfl, rfl, rfl, rfl, rfl⟩
 
 /-! ### non-vacuity: the hypotheses are satisfiable by non-trivial values -/
 
